@@ -36,10 +36,26 @@ const nValidators = 4
 // store with the overlay reset - i.e. exactly the state right after registration. Cases never
 // write to the store itself (World.Exec only commits into the overlay).
 func newWorldWithChain(netID uint32, chainID, router uint64, ccmc []byte) *world.World {
-	key := fmt.Sprintf("%d/%d/%d/%x", netID, chainID, router, ccmc)
+	return newWorldWithChains(netID, []chainSpec{{chainID, router, ccmc}})
+}
+
+type chainSpec struct {
+	id, router uint64
+	ccmc       []byte
+}
+
+func newWorldWithChains(netID uint32, chains []chainSpec) *world.World {
+	key := fmt.Sprintf("%d", netID)
+	for _, c := range chains {
+		key += fmt.Sprintf("/%d:%d:%x", c.id, c.router, c.ccmc)
+	}
 	base, ok := baseWorlds[key]
 	if !ok {
-		base = buildWorldWithChain(netID, chainID, router, ccmc)
+		base = world.New(nValidators, world.Opts{NetworkID: netID})
+		for _, c := range chains {
+			registerChain(base, c.id, c.router, c.ccmc)
+		}
+		base.NextBlock()
 		base.Store.NewBatch()
 		base.Overlay.CommitTo()
 		if err := base.Store.BatchCommit(); err != nil {
@@ -56,8 +72,7 @@ func newWorldWithChain(netID uint32, chainID, router uint64, ccmc []byte) *world
 
 var baseWorlds = map[string]*world.World{}
 
-func buildWorldWithChain(netID uint32, chainID, router uint64, ccmc []byte) *world.World {
-	w := world.New(nValidators, world.Opts{NetworkID: netID})
+func registerChain(w *world.World, chainID, router uint64, ccmc []byte) {
 	owner := world.Acct(40)
 	p := &side_chain_manager.RegisterSideChainParam{Address: owner.Address, ChainId: chainID, Router: router,
 		Name: fmt.Sprintf("chain-%d", chainID), BlocksToWait: 1, CCMCAddress: ccmc}
@@ -89,17 +104,31 @@ func buildWorldWithChain(netID uint32, chainID, router uint64, ccmc []byte) *wor
 	if err != nil || sc == nil || sc.Router != router {
 		panic(fmt.Sprintf("fixture: side chain %d not installed (%v)", chainID, err))
 	}
-	w.NextBlock()
-	return w
 }
 
 // syncGenesis installs the trust root through header_sync.syncGenesisHeader witnessed by the
 // consensus operator multi-sig address.
 func syncGenesis(w *world.World, chainID uint64, raw []byte) world.Result {
+	return syncGenesisAs(w, chainID, raw, []common.Address{w.Operator()})
+}
+
+func genesisArgs(chainID uint64, raw []byte) []byte {
 	p := &hscommon.SyncGenesisHeaderParam{ChainID: chainID, GenesisHeader: raw}
 	sink := common.NewZeroCopySink(nil)
 	p.Serialization(sink)
-	return w.Invoke(utils.HeaderSyncContractAddress, hscommon.SYNC_GENESIS_HEADER, sink.Bytes(), []common.Address{w.Operator()})
+	return sink.Bytes()
+}
+
+func syncGenesisAs(w *world.World, chainID uint64, raw []byte, signers []common.Address) world.Result {
+	return w.Invoke(utils.HeaderSyncContractAddress, hscommon.SYNC_GENESIS_HEADER, genesisArgs(chainID, raw), signers)
+}
+
+func syncHeadersArgs(chainID uint64, raws [][]byte) ([]byte, []common.Address) {
+	relayer := world.Acct(50)
+	p := &hscommon.SyncBlockHeaderParam{ChainID: chainID, Address: relayer.Address, Headers: raws}
+	sink := common.NewZeroCopySink(nil)
+	p.Serialization(sink)
+	return sink.Bytes(), []common.Address{relayer.Address}
 }
 
 // syncHeaders submits a batch of raw headers in ONE syncBlockHeader transaction (relayer = outsider).
